@@ -591,8 +591,11 @@ func runQuiet(t *testing.T, seed int64, t0 time.Time) (line, real string, fails 
 
 type bcForced struct {
 	name  string
-	trace string // label sequence for the model (fixed = 1)
+	trace string // label sequence for the model (fixed = 1) for the schedule the template aims at
 	run   func(t *testing.T, inst *bcInst) // drives the real broker into that schedule
+	// alt: when the scheduler resolved the forced race the other way (both orders are legitimate
+	// behaviours), the observation containing `altWhen` is validated against `altTrace` instead.
+	altWhen, altTrace string
 }
 
 // F1 shape: the proxy timeout fires, the client's matchSnowflake gets the lock before the waiter's
@@ -660,10 +663,13 @@ func bcForceTwoAnswers(t *testing.T, inst *bcInst) {
 }
 
 var bcForcedTemplates = []bcForced{
-	{"poll-timeout-vs-client-match", "pa:1:u:0,add:1,wt:1,ca:101:k:0,cm:101:1,wc:1,wl:1:101,wf:1,hr:1,ct:101,cf:101", bcForcePollTimeoutVsMatch},
-	{"answer-lookup-vs-client-timeout", "pa:1:u:0,add:1,ca:101:k:0,cm:101:1,wo:1:101,wf:1,hr:1,aa:201:1,ct:101,al:201,cf:101,as:201", bcForceAnswerVsClientTimeout},
-	{"early-answer-then-poll-timeout", "pa:1:r:0,add:1,aa:201:1,al:201,as:201,wt:1,wc:1,hi:1,hr:1", bcForceEarlyAnswerThenPollTimeout},
-	{"two-answers-one-session", "pa:1:u:0,add:1,ca:101:r:0,cm:101:1,wo:1:101,wf:1,hr:1,aa:201:1,aa:202:1,al:201,al:202,as:201,as:202,cr:101,cf:101", bcForceTwoAnswers},
+	{"poll-timeout-vs-client-match", "pa:1:u:0,add:1,wt:1,ca:101:k:0,cm:101:1,wc:1,wl:1:101,wf:1,hr:1,ct:101,cf:101", bcForcePollTimeoutVsMatch,
+		"p1=idle", "pa:1:u:0,add:1,wt:1,wc:1,hi:1,hr:1,ca:101:k:0,cd:101"},
+	{"answer-lookup-vs-client-timeout", "pa:1:u:0,add:1,ca:101:k:0,cm:101:1,wo:1:101,wf:1,hr:1,aa:201:1,ct:101,al:201,cf:101,as:201", bcForceAnswerVsClientTimeout,
+		"a201=gone", "pa:1:u:0,add:1,ca:101:k:0,cm:101:1,wo:1:101,wf:1,hr:1,aa:201:1,ct:101,cf:101,al:201"},
+	{"early-answer-then-poll-timeout", "pa:1:r:0,add:1,aa:201:1,al:201,as:201,wt:1,wc:1,hi:1,hr:1", bcForceEarlyAnswerThenPollTimeout, "", ""},
+	{"two-answers-one-session", "pa:1:u:0,add:1,ca:101:r:0,cm:101:1,wo:1:101,wf:1,hr:1,aa:201:1,aa:202:1,al:201,al:202,as:201,as:202,cr:101,cf:101", bcForceTwoAnswers,
+		"a202=gone", "pa:1:u:0,add:1,ca:101:r:0,cm:101:1,wo:1:101,wf:1,hr:1,aa:201:1,aa:202:1,al:201,as:201,cr:101,cf:101,al:202"},
 }
 
 // ---------------------------------------------------------------------------------------------
@@ -742,8 +748,13 @@ func runBrokerCore(t *testing.T, prop string) {
 	}
 	for i, f := range bcForcedTemplates {
 		line := "broker trace 1 0=100 " + f.trace
+		cls := "forced/" + f.name
+		if f.altWhen != "" && strings.Contains(forced[i], f.altWhen) {
+			line = "broker trace 1 0=100 " + f.altTrace
+			cls += "/other-order"
+		}
 		model := r.Model(line)
-		r.Case("forced/"+f.name, line, true)
+		r.Case(cls, line, true)
 		r.Compare("forced-"+f.name, line, "ok "+forced[i], model)
 		if prop == "C04" {
 			inst := forcedInst[i]
